@@ -230,9 +230,41 @@ Definition C14_eq_stmt : Prop := keq_ok keq hash ->
     (store_eq keq hash peq a b = true <->
      forall j, snd <$> al (smap a) j = snd <$> al (smap b) j).
 
+(** C14 for a priority type whose [PartialEq] is coarser than Leibniz
+    equality (the tagged priorities of InstanceT.v; any user type comparing
+    only part of itself): [peq] is arbitrary for the characterisation and an
+    equivalence for the algebraic laws.  Proved in EqRel.v. *)
+Definition prio_rel (x y : option P) : Prop :=
+  match x, y with
+  | Some a, Some b => peq a b = true
+  | None, None => True
+  | _, _ => False
+  end.
+
+Definition C14_eq_rel_stmt : Prop := keq_ok keq hash ->
+  forall k o1 o2 (a b : store), qinv k o1 a -> qinv k o2 b ->
+    (store_eq keq hash peq a b = true <->
+     forall j, prio_rel (snd <$> al (smap a) j) (snd <$> al (smap b) j)).
+
+Definition C14_eq_equivalence_stmt : Prop := keq_ok keq hash ->
+  (forall x, peq x x = true) ->
+  (forall x y, peq x y = true -> peq y x = true) ->
+  (forall x y z, peq x y = true -> peq y z = true -> peq x z = true) ->
+  forall k o1 o2 o3 (a b c : store), qinv k o1 a -> qinv k o2 b -> qinv k o3 c ->
+    store_eq keq hash peq a a = true /\
+    (store_eq keq hash peq a b = true -> store_eq keq hash peq b a = true) /\
+    (store_eq keq hash peq a b = true -> store_eq keq hash peq b c = true ->
+     store_eq keq hash peq a c = true).
+
 (** ** C15: serde *)
 Definition C15_roundtrip_stmt : Prop := keq_ok keq hash -> ord_ok ple ->
   (forall a b, peq a b = true <-> a = b) ->
+  forall k k' o s, qinv k o s ->
+    exists s', q_deserialize k' (serialize s) = Ok s' /\ qinv k' true s' /\
+      smap s' = smap s /\ store_eq keq hash peq s s' = true.
+(** the round trip for a [PartialEq] that is merely reflexive *)
+Definition C15_roundtrip_rel_stmt : Prop := keq_ok keq hash -> ord_ok ple ->
+  (forall x, peq x x = true) ->
   forall k k' o s, qinv k o s ->
     exists s', q_deserialize k' (serialize s) = Ok s' /\ qinv k' true s' /\
       smap s' = smap s /\ store_eq keq hash peq s s' = true.
